@@ -1,6 +1,5 @@
 import I2P.Props.C09a
 import I2P.Gen.Observed
-import I2P.Gen.Tables
 /-! # C09 (tie half) — the policy the library enforces *now*, regenerated on every run
 
 `Gen.Observed.destAccepted / ridAccepted`: the (signing, crypto) pairs for which `ReadDestination` /
@@ -28,13 +27,6 @@ theorem observed_matches_model :
     Gen.Observed.ridAccepted =
       ([0, 1, 2, 3, 4, 5, 6, 7, 8, 11].flatMap fun s => (List.range 16).filterMap fun c =>
         if sigConstructible s && cryptoConstructible c && ridAllowed s c then some (s, c) else none) := by decide
-
-/-- the prohibited sets as written in the Go source equal the specification's -/
-theorem source_policy_sets :
-    Gen.Tables.router_identity_disallowedSigningKeyTypes.map (·.1) = [4, 5, 6, 8, 11] ∧
-    Gen.Tables.router_identity_disallowedCryptoKeyTypes.map (·.1) = [5, 6, 7] ∧
-    Gen.Tables.destination_switch_validateDestinationCryptoType.map (fun r => (r.1, r.2.getD 1 1)) = [(5, 0), (6, 0), (7, 0)] ∧
-    Gen.Tables.destination_switch_validateDestinationSigningType.map (fun r => (r.1, r.2.getD 1 1)) = [(4, 0), (5, 0), (6, 0), (8, 0)] := by decide
 
 /-- and those sets are the specification's predicates (for every 16-bit code, by the shape of the predicates) -/
 theorem spec_sets (s c : Nat) :
